@@ -821,8 +821,8 @@ class Interp:
             if n in frame.env and not (n in inits and
                                        frame.env[n] == T("loopvar", n, lid,
                                                          inits[n])):
-                frame.env[n] = T("loopout", n, lid,
-                                 inits.get(n, T("undefined")), frame.env[n])
+                frame.env[n] = self._append_loop(
+                    n, lid, inits.get(n, T("undefined")), frame.env[n], it)
             elif n in inits:
                 frame.env[n] = inits[n]
         for key, init in attr_inits.items():
@@ -834,6 +834,23 @@ class Interp:
         if s.orelse:
             self.exec_block(s.orelse, frame, live)
         return live
+
+    def _append_loop(self, n, lid, init, upd, it):
+        """Value of a loop-carried variable after the loop.
+
+        ``xs = []`` followed by ``for t in it: xs.append(E)`` where E does
+        not read a loop-carried value is the list comprehension
+        ``[E for t in it]``: both spellings get the comprehension term."""
+        lv = T("loopvar", n, lid, init)
+        i0 = self.unname(init)
+        if i0.op == "list" and not i0.args and upd.op == "mut" and \
+                upd.args[0] == lv and upd.args[1] == "append" and \
+                len(upd.args[2]) == 1:
+            e = upd.args[2][0]
+            if not any(x.op in ("loopvar", "loopout") and x.args[1] == lid
+                       for x in e.walk()):
+                return T("comp", "list", e, ((it, lid),), ())
+        return T("loopout", n, lid, init, upd)
 
     def st_While(self, s, frame, live):
         lid = self.new_loop(s)
